@@ -122,16 +122,15 @@ class Harness:
         if "ignoreerr" in self.hc and e["rtn"] != 0:
             return True
         if "ignoredups" in self.hc:
-            # "matches the previous command": lenient reading - the nearest earlier command (also across
-            # a clear) when commands that another rule may have dropped are skipped
+            # "matches the previous command" = the previous RECORDED command (what both back ends - and
+            # bash - compare with), also across a clear: commands another rule has dropped are skipped
             k = e["seq"] - 1
             while k >= 0:
                 p = self.everything[k]
-                if p["text"].rstrip() == e["text"].rstrip():
-                    return True
-                if not (("ignorespace" in self.hc and p["spc"]) or ("ignoreerr" in self.hc and p["rtn"] != 0)):
-                    break
-                k -= 1
+                if ("ignorespace" in self.hc and p["spc"]) or ("ignoreerr" in self.hc and p["rtn"] != 0):
+                    k -= 1
+                    continue
+                return p["text"].rstrip() == e["text"].rstrip()
         return False
 
     def check(self, hist):
